@@ -58,7 +58,15 @@ BASE = {"cfg": {"algo": "SHA-256", "depth": 2, "width": 2}, "contents": [{"hex":
 
 
 def enumerate_cases(tier):
+    seen = set()
     for case in c07.enumerate_cases("quick"):
+        if case["mode"] == "triple":
+            continue                      # (3-thread shapes are covered by this check's own families)
+        key = (case["start_name"], str(case["calls"]))
+        if key in seen:
+            continue                      # the 2-preemption slices of C07 repeat the same program
+        seen.add(key)
+        case = {k: v for k, v in case.items() if k not in ("firsts", "i_mod")}
         yield dict(case, family="pairs07", all_followups=(tier == "thorough"))
     for case in c12.enumerate_cases("quick"):
         if case.get("max_preempt", 1) >= 2:
